@@ -280,6 +280,11 @@ def run(prog, ctx):
             ctx.inconclusive("V5", "setter stores %r" % lit, sb.where, "canonical literal not found")
             continue
         got = set(L for (L, how, x) in grec.get(truth, set()))
+        anyword = set(L for t9 in (True, False) for (L, how, x) in grec.get(t9, set()) if L)
+        if not anyword:
+            # no word at all is compared in a form the rule reads (a comparator helper of the getter's own): nothing to say
+            ctx.inconclusive("V5", "stored %r reads back as %s" % (lit, truth), gb.where, "the getter's word comparisons are in a form not understood")
+            continue
         if lit in got:
             ctx.ok("V5", "stored %r reads back as %s" % (lit, truth), sb.where, "getter recognises it on the path to *result = %s" % str(truth).lower())
         else:
